@@ -102,7 +102,8 @@ class TabularEnv(AbstractEnv):
     def transition_info(self, state, action, next_state):
         # depends on the action it is handed, so wrappers that map actions are observable here too
         a, x = self._a(action)
-        return {"action_bucket": a, "action_value": x, "next_s": next_state.s}
+        return {"action_bucket": a, "action_value": x, "s": state.s, "clock": state.clock, "next_s": next_state.s,
+                "next_clock": next_state.clock}
 
     def default_renderer(self):
         raise NotImplementedError
